@@ -28,7 +28,7 @@ class C09(C.ProgramDiff):
     rule = ('random programs whose bodies use call/1..3, once/1, findall/3, = and \\= with goals in every shape: '
             'inline compound, inline atom, a variable bound at run time (directly or through a second variable), '
             'passed in through helper predicates do/1, do1/1, all/3, ap/2,3 from the query, with 0-2 extra arguments, '
-            'nested meta-calls, predicates that have asserted facts beside their compiled clauses, bound / partially bound bags, templates sharing variables with the goal. Answers '
+            'nested meta-calls, predicates that have asserted facts beside their compiled clauses, bound / partially bound bags, templates sharing variables with the goal; meta-calls written inline as operands of ;, -> and \\+; call/N through call/M with extra arguments at both levels; a predicate combined from two scripts whose earlier part commits with a cut, called through call/N, findall and the helpers; findall asked again with the bag bound to a strict prefix of its result. Answers '
             '(bindings, order, multiplicity, no exception, no binding left by findall) compared with reference R; '
             'queries in which findall collects a non-ground instance are discarded (C09 does not say whether its variables are fresh). Non-trivial = R executed a '
             'meta-call whose goal came from a variable bound at run time, or had 0 answers, or >= 2 answers (once/'
